@@ -41,6 +41,7 @@ func checkC11(c *Check) {
 	c11DestKeyIsTakeKey(c, "R10")
 	c11NoNegativeChannelSize(c, "R12")
 	c11GrantedMeansTaken(c, "R13")
+	c11WrapperReportsInnerAnswer(c, "R14")
 
 	// the endpoint's permits: C03.R5 / C03.immut (acquire/release pairing and key agreement in the SMTP session) are
 	// this property's rules for the endpoint scope; they are re-evaluated here.
